@@ -67,7 +67,7 @@ fn bad_args(rng: &mut Rng, s2: usize, norm: bool, array_form: bool) -> Args {
             if array_form {
                 a.len1 = 65 + rng.below(190) as u8;
             }
-            let n = 65 + rng.usize_below(16);
+            let n = overlong_len(rng, 64, 16);
             a.bh1 = overlong(rng, n);
         }
         2 => {
@@ -76,7 +76,7 @@ fn bad_args(rng: &mut Rng, s2: usize, norm: bool, array_form: bool) -> Args {
                 a.len2 = (s2 + 1 + rng.usize_below(255 - s2)) as u8;
             }
             // up to twice the capacity: for the short types this stays within block hash 1's capacity
-            let n = s2 + 1 + rng.usize_below(s2.max(16));
+            let n = overlong_len(rng, s2, s2.max(16));
             a.bh2 = overlong(rng, n);
         }
         3 => {
@@ -160,6 +160,17 @@ fn bad_args(rng: &mut Rng, s2: usize, norm: bool, array_form: bool) -> Args {
 
 /// an over-long block hash: either all distinct neighbours, or (half of the time) with a long run so that
 /// its run-collapse would fit into the capacity (the shape a length check against the wrong bound lets through)
+/// a length beyond the capacity: mostly just above it; one time in three a length whose low 8 or 16
+/// bits look like a legal length (256*j + r, 65536*j + r with r <= capacity), which is what a guard
+/// evaluated after a narrowing conversion lets through
+fn overlong_len(rng: &mut Rng, cap: usize, spread: usize) -> usize {
+    match rng.below(6) {
+        0 => 256 * rng.urange(1, 4) + rng.urange(0, cap),
+        1 => 65536 * rng.urange(1, 2) + rng.urange(0, cap),
+        _ => cap + 1 + rng.usize_below(spread),
+    }
+}
+
 fn overlong(rng: &mut Rng, n: usize) -> Vec<u8> {
     if rng.chance(1, 2) {
         (0..n).map(|i| ((i * 11 + 3) % 64) as u8).collect()
@@ -254,7 +265,7 @@ fn w9_case(rng: &mut Rng, l: &mut Local) {
             let mut pa = BlockHashPositionArray::new();
             pa.init_from(&hashes::gen_bh(rng, 64));
             let bad: Vec<u8> = if rng.chance(1, 2) {
-                (0..(65 + rng.usize_below(30))).map(|i| (i % 64) as u8).collect()
+                (0..overlong_len(rng, 64, 30)).map(|i| (i % 64) as u8).collect()
             } else {
                 let mut v = hashes::gen_bh(rng, 64);
                 if v.is_empty() {
